@@ -8,7 +8,6 @@ def _flags(case):
 
 def _signature(case, impl, model):
     """D19. A finding suppresses only its own symptom:
-    score-nonfinite: the file holds a ±Inf/NaN score and the tool exited through log.Panic* (`abort`);
     chunked-hash:    the loader split a hash above the chunk limit (flag computed by the generator from the limit
                      of the binary that runs the case) — DecodeDump then fails (abort) or mis-reads the piece."""
     kind = case.split(" ", 1)[0]
@@ -17,8 +16,6 @@ def _signature(case, impl, model):
         return "chunked-hash"      # crash: the mis-read piece can also make the decoder index out of range (LZF)
     if kind == "decbig" and impl in ("abort", "crash"):
         return "chunked-hash"
-    if kind == "dec" and "inf" in fl and impl == "abort":
-        return "score-nonfinite"
     return None
 
 
@@ -43,7 +40,7 @@ PROPS["C17"] = {
     "rule": "dec: RDB files with known logical content from a serializer written in the harness — strings (raw/int/LZF), lists "
             "(linked, ziplist, quicklist), sets (plain, intset 16/32/64), hashes (plain, zipmap, ziplist), sorted sets (text, binary, "
             "ziplist scores), Lua scripts, skipped aux/resizedb records, select-db, expiries in s/ms incl. > 2^63, binary non-UTF-8 keys and "
-            "values, scores incl. -0/denormals/max, (D19) ±Inf/NaN, stream keys; each run with parallel in 1..8, some files with "
+            "values, scores incl. -0/denormals/max, ±Inf/NaN (printed as the strings inf / -inf / nan since fix 8575c18), stream keys; each run with parallel in 1..8, some files with "
             "150-2600 keys under every parallel 1..8; files with 5 000..140 000-element collections and list/hash/zset ziplists forced to "
             "32 767..70 001 elements (16-bit entry count saturated); scaled: hashes straddling a 64-byte chunk limit; thorough: one 20 MiB hash. "
             "b64/b64d: Go's base64 encoder/decoder against the proved codec on random and mutated strings. "
@@ -58,6 +55,6 @@ PROPS["C17"] = {
                 "composes C01's loader model and C12's DecodeDump model (Model/RdbDecode.lean, copy of C12's file)"],
     "assumptions": ["parallel >= 1 (with 0 workers the tool prints nothing: theorem zero_workers_prints_nothing)",
                     "Lua script text is valid UTF-8 (the aux line carries it as a raw JSON string, not base64)",
-                    "all scores finite and no hash above the 16 MiB chunk limit (D19 findings score-nonfinite, chunked-hash)",
+                    "no hash above the 16 MiB chunk limit (D19 finding chunked-hash; the score-nonfinite half of D19 is repaired: fix 8575c18)",
                     "stream/module values are outside the property (DecodeDump rejects them and the tool aborts)"],
 }
